@@ -734,3 +734,202 @@ VARIANTS += [
  dict(name='mediatype-equality-helper-case-insensitive', expect='flagged(blob/mediatype-equal)',
       edits=[(V, MT_OLD, '(desc.MediaType != "" && !sameString(desc.MediaType, payload.TargetArtifact.MediaType))'), (V, BLOB_FN_ANCHOR, SAME.replace('a == b', 'strings.EqualFold(a, b)') + '\n' + BLOB_FN_ANCHOR)]),
 ]
+
+# ---- third pass: the hash→digest table in another representation (class: package-level table vs function, comma-ok vs
+# error vs zero value, helper boundary around the lookup, parameter narrowed/widened, single exit fed by locals) ----
+ALG_MAP = '''var algorithms = map[crypto.Hash]digest.Algorithm{
+	crypto.SHA256: digest.SHA256,
+	crypto.SHA384: digest.SHA384,
+	crypto.SHA512: digest.SHA512,
+}
+'''
+ALG_USE = '''	digestAlgo, ok := algorithms[cryptoHash]
+	if !ok {
+		logger.Error("Unsupported hashing algorithm: %v", cryptoHash)
+		err := fmt.Errorf("unsupported hashing algorithm: %v", cryptoHash)
+		outcome.Error = err
+		return outcome, err
+	}
+'''
+def alg_use(call, test='!ok', lhs='digestAlgo, ok'):
+    return ALG_USE.replace('digestAlgo, ok := algorithms[cryptoHash]', lhs + ' := ' + call).replace('if !ok {', 'if ' + test + ' {').replace('\t\terr := fmt.Errorf', '\t\terr = fmt.Errorf')
+ALG_SWITCH = '''func digestAlgorithm(hash crypto.Hash) (digest.Algorithm, bool) {
+	switch hash {
+	case crypto.SHA256:
+		return digest.SHA256, true
+	case crypto.SHA384:
+		return digest.SHA384, true
+	case crypto.SHA512:
+		return digest.SHA512, true
+	}
+	return "", false
+}
+'''
+# if chain, error answer
+ALG_IF_ERR = '''func digestAlgorithm(hash crypto.Hash) (digest.Algorithm, error) {
+	if hash == crypto.SHA256 {
+		return digest.SHA256, nil
+	}
+	if hash == crypto.SHA384 {
+		return digest.SHA384, nil
+	}
+	if hash == crypto.SHA512 {
+		return digest.SHA512, nil
+	}
+	return "", fmt.Errorf("unsupported hashing algorithm: %v", hash)
+}
+'''
+# single exit fed by two locals
+ALG_SINGLE_EXIT = '''func digestAlgorithm(hash crypto.Hash) (digest.Algorithm, bool) {
+	var algorithm digest.Algorithm
+	known := true
+	switch hash {
+	case crypto.SHA256:
+		algorithm = digest.SHA256
+	case crypto.SHA384:
+		algorithm = digest.SHA384
+	case crypto.SHA512:
+		algorithm = digest.SHA512
+	default:
+		known = false
+	}
+	return algorithm, known
+}
+'''
+# the table handed the signature algorithm (parameter widened), zero value as the miss answer
+ALG_OF_SIGALG = '''func digestAlgorithmOf(signatureAlgorithm signature.Algorithm) digest.Algorithm {
+	switch signatureAlgorithm.Hash() {
+	case crypto.SHA256:
+		return digest.SHA256
+	case crypto.SHA384:
+		return digest.SHA384
+	case crypto.SHA512:
+		return digest.SHA512
+	default:
+		return ""
+	}
+}
+'''
+# the map kept, looked up behind a helper boundary (two results: the value is transparent, the ok is the helper's answer)
+ALG_WRAP = ALG_MAP + '''
+func lookupDigestAlgorithm(content *signature.EnvelopeContent) (digest.Algorithm, bool) {
+	algorithm, known := algorithms[content.SignerInfo.SignatureAlgorithm.Hash()]
+	return algorithm, known
+}
+'''
+# a table on top of a table: the error answer built from the inner table's boolean answer
+ALG_TWO_LEVEL = ALG_SWITCH + '''
+func requireDigestAlgorithm(hash crypto.Hash) (digest.Algorithm, error) {
+	algorithm, known := digestAlgorithm(hash)
+	if !known {
+		return "", fmt.Errorf("unsupported hashing algorithm: %v", hash)
+	}
+	return algorithm, nil
+}
+'''
+ZERO_USE = ALG_USE.replace('digestAlgo, ok := algorithms[cryptoHash]', 'digestAlgo := algorithms[cryptoHash]').replace('if !ok {', 'if digestAlgo == "" {')
+def alg_fn(decl, use):
+    return [(V, ALG_MAP, decl), (V, ALG_USE, use)]
+ERR_USE = alg_use('digestAlgorithm(cryptoHash)', 'err != nil', 'digestAlgo, err').replace('\t\terr = fmt.Errorf("unsupported hashing algorithm: %v", cryptoHash)\n', '')
+VARIANTS += [
+ dict(name='benign-algorithm-table-switch-function', expect='silent', edits=alg_fn(ALG_SWITCH, alg_use('digestAlgorithm(cryptoHash)'))),
+ dict(name='benign-algorithm-table-if-chain-error', expect='silent', edits=alg_fn(ALG_IF_ERR, ERR_USE)),
+ dict(name='benign-algorithm-table-single-exit', expect='silent', edits=alg_fn(ALG_SINGLE_EXIT, alg_use('digestAlgorithm(cryptoHash)'))),
+ dict(name='benign-algorithm-table-of-signature-algorithm-zero-miss', expect='silent',
+      edits=alg_fn(ALG_OF_SIGALG, alg_use('digestAlgorithmOf(outcome.EnvelopeContent.SignerInfo.SignatureAlgorithm)', 'digestAlgo == ""', 'digestAlgo'))),
+ dict(name='benign-algorithm-map-behind-helper', expect='silent', edits=alg_fn(ALG_WRAP, alg_use('lookupDigestAlgorithm(outcome.EnvelopeContent)'))),
+ dict(name='benign-algorithm-table-two-level', expect='silent', edits=alg_fn(ALG_TWO_LEVEL, alg_use('requireDigestAlgorithm(cryptoHash)', 'err != nil', 'digestAlgo, err').replace('\t\terr = fmt.Errorf("unsupported hashing algorithm: %v", cryptoHash)\n', ''))),
+ dict(name='benign-algorithm-map-zero-value-test', expect='silent', file=V, find=ALG_USE, replace=ZERO_USE),
+ # broken counterparts
+ dict(name='algorithm-table-function-default-sha256', expect='flagged(blob/)',
+      edits=alg_fn(ALG_SWITCH.replace('\treturn "", false\n', '\treturn digest.SHA256, true\n'), alg_use('digestAlgorithm(cryptoHash)'))),
+ dict(name='algorithm-table-function-ignores-hash', expect='flagged(blob/)',
+      edits=alg_fn('func digestAlgorithm(hash crypto.Hash) (digest.Algorithm, bool) {\n\treturn digest.SHA256, hash.Available()\n}\n', alg_use('digestAlgorithm(cryptoHash)'))),
+ dict(name='algorithm-table-function-mispaired', expect='flagged(blob/)',
+      edits=alg_fn(ALG_SWITCH.replace('return digest.SHA384, true', 'return digest.SHA256, true'), alg_use('digestAlgorithm(cryptoHash)'))),
+ dict(name='algorithm-table-function-miss-ignored', expect='flagged(blob/algorithm-lookup)',
+      edits=alg_fn(ALG_SWITCH, alg_use('digestAlgorithm(cryptoHash)', '!ok && cryptoHash == 0'))),
+ dict(name='algorithm-table-function-of-constant-hash', expect='flagged(blob/)',
+      edits=alg_fn(ALG_SWITCH, alg_use('digestAlgorithm(crypto.SHA256)'))),
+ dict(name='algorithm-table-if-chain-error-default-nil', expect='flagged(blob/)',
+      edits=alg_fn(ALG_IF_ERR.replace('\treturn "", fmt.Errorf("unsupported hashing algorithm: %v", hash)\n', '\treturn digest.SHA512, nil\n'), ERR_USE)),
+ dict(name='algorithm-table-single-exit-default-known', expect='flagged(blob/)',
+      edits=alg_fn(ALG_SINGLE_EXIT.replace('\tdefault:\n\t\tknown = false\n', '\tdefault:\n\t\talgorithm = digest.SHA256\n'), alg_use('digestAlgorithm(cryptoHash)'))),
+ dict(name='algorithm-map-behind-helper-miss-not-reported', expect='flagged(blob/algorithm-lookup)',
+      edits=alg_fn(ALG_WRAP.replace('\treturn algorithm, known\n', '\treturn algorithm, known || algorithm == ""\n'), alg_use('lookupDigestAlgorithm(outcome.EnvelopeContent)'))),
+ dict(name='algorithm-table-two-level-miss-swallowed', expect='flagged(blob/)',
+      edits=alg_fn(ALG_TWO_LEVEL.replace('\tif !known {\n', '\tif !known && hash == 0 {\n'), alg_use('requireDigestAlgorithm(cryptoHash)', 'err != nil', 'digestAlgo, err').replace('\t\terr = fmt.Errorf("unsupported hashing algorithm: %v", cryptoHash)\n', ''))),
+ dict(name='algorithm-map-zero-value-test-dropped', expect='flagged(blob/algorithm-lookup)', file=V, find=ALG_USE,
+      replace=ZERO_USE.replace('if digestAlgo == "" {', 'if digestAlgo == "" && cryptoHash == 0 {')),
+]
+
+# further members of the class: the boolean answer spelled as a comparison, lookup and generator call behind one helper
+# boundary, the table as a closure / as a method handed the whole outcome, the map declared in another package
+ALG_HASH_LINE = '\tcryptoHash := outcome.EnvelopeContent.SignerInfo.SignatureAlgorithm.Hash()\n'
+GEN_OLD = ALG_HASH_LINE + ALG_USE + '''
+	desc, err := descGenFunc(digestAlgo)
+	if err != nil {
+'''
+GEN_NEW = '''	desc, err := describeSignedBlob(outcome.EnvelopeContent, descGenFunc)
+	if err != nil {
+'''
+DESCRIBE_SIGNED = '''func describeSignedBlob(content *signature.EnvelopeContent, generate notation.BlobDescriptorGenerator) (ocispec.Descriptor, error) {
+	hash := content.SignerInfo.SignatureAlgorithm.Hash()
+	algorithm, ok := algorithms[hash]
+	if !ok {
+		return ocispec.Descriptor{}, fmt.Errorf("unsupported hashing algorithm: %v", hash)
+	}
+	return generate(algorithm)
+}
+
+'''
+def describe_signed(body=DESCRIBE_SIGNED):
+    return [(V, GEN_OLD, GEN_NEW), (V, BLOB_FN_ANCHOR, body + BLOB_FN_ANCHOR)]
+ALG_CLOSURE = '''	lookup := func(hash crypto.Hash) (digest.Algorithm, bool) {
+		algorithm, known := algorithms[hash]
+		return algorithm, known
+	}
+'''
+ALG_METHOD = '''func (v *verifier) blobDigestAlgorithm(outcome *notation.VerificationOutcome) (digest.Algorithm, error) {
+	switch hash := outcome.EnvelopeContent.SignerInfo.SignatureAlgorithm.Hash(); hash {
+	case crypto.SHA256:
+		return digest.SHA256, nil
+	case crypto.SHA384:
+		return digest.SHA384, nil
+	case crypto.SHA512:
+		return digest.SHA512, nil
+	default:
+		return "", fmt.Errorf("unsupported hashing algorithm: %v", hash)
+	}
+}
+
+'''
+METHOD_USE = alg_use('v.blobDigestAlgorithm(outcome)', 'err != nil', 'digestAlgo, err').replace('\t\terr = fmt.Errorf("unsupported hashing algorithm: %v", cryptoHash)\n', '')
+def alg_method(body=ALG_METHOD):
+    return [(V, ALG_USE, METHOD_USE), (V, BLOB_FN_ANCHOR, body + BLOB_FN_ANCHOR)]
+ENV = 'internal/envelope/envelope.go'
+def alg_other_package(index='cryptoHash', test='!ok'):
+    return [(V, ALG_MAP, ''), (V, '\t"crypto"\n', ''), (V, '\t"github.com/opencontainers/go-digest"\n', ''),
+            (V, ALG_USE, alg_use('envelope.DigestAlgorithms[' + index + ']', test)),
+            (ENV, '\t"errors"\n', '\t"crypto"\n\t"errors"\n'),
+            (ENV, '\tocispec "github.com/opencontainers/image-spec/specs-go/v1"\n', '\t"github.com/opencontainers/go-digest"\n\tocispec "github.com/opencontainers/image-spec/specs-go/v1"\n'),
+            (ENV, '// Payload describes the content that gets signed.\n', '// DigestAlgorithms maps the hash of a signature algorithm to the digest algorithm of signed blobs.\nvar DigestAlgorithms = map[crypto.Hash]digest.Algorithm{\n\tcrypto.SHA256: digest.SHA256,\n\tcrypto.SHA384: digest.SHA384,\n\tcrypto.SHA512: digest.SHA512,\n}\n\n// Payload describes the content that gets signed.\n')]
+VARIANTS += [
+ dict(name='benign-algorithm-table-answer-compared-with-false', expect='silent', edits=alg_fn(ALG_SWITCH, alg_use('digestAlgorithm(cryptoHash)', 'ok == false'))),
+ dict(name='benign-algorithm-lookup-and-generator-behind-one-helper', expect='silent', edits=describe_signed()),
+ dict(name='benign-algorithm-table-closure', expect='silent', file=V, find=ALG_USE, replace=ALG_CLOSURE + alg_use('lookup(cryptoHash)')),
+ dict(name='benign-algorithm-table-method-of-outcome', expect='silent', edits=alg_method()),
+ dict(name='benign-algorithm-map-in-another-package', expect='silent', edits=alg_other_package()),
+ # broken counterparts
+ dict(name='algorithm-table-answer-compared-with-true', expect='flagged(blob/algorithm-lookup)', edits=alg_fn(ALG_SWITCH, alg_use('digestAlgorithm(cryptoHash)', 'ok == true'))),
+ dict(name='algorithm-helper-miss-swallowed', expect='flagged(blob/algorithm-lookup)', edits=describe_signed(DESCRIBE_SIGNED.replace('\tif !ok {\n', '\tif !ok && hash == 0 {\n'))),
+ dict(name='algorithm-helper-generates-with-sha256', expect='flagged(blob/)', edits=describe_signed(DESCRIBE_SIGNED.replace('\treturn generate(algorithm)\n', '\t_ = algorithm\n\treturn generate(digest.SHA256)\n'))),
+ dict(name='algorithm-helper-looks-up-constant-hash', expect='flagged(blob/)', edits=describe_signed(DESCRIBE_SIGNED.replace('algorithms[hash]', 'algorithms[crypto.SHA256]'))),
+ dict(name='algorithm-table-closure-always-known', expect='flagged(blob/)', file=V, find=ALG_USE,
+      replace=ALG_CLOSURE.replace('\t\treturn algorithm, known\n', '\t\t_ = known\n\t\treturn algorithm, true\n') + alg_use('lookup(cryptoHash)')),
+ dict(name='algorithm-table-method-default-sha256', expect='flagged(blob/)',
+      edits=alg_method(ALG_METHOD.replace('\t\treturn "", fmt.Errorf("unsupported hashing algorithm: %v", hash)\n', '\t\treturn digest.SHA256, nil\n'))),
+ dict(name='algorithm-table-method-switches-on-constant', expect='flagged(blob/)',
+      edits=alg_method(ALG_METHOD.replace('switch hash := outcome.EnvelopeContent.SignerInfo.SignatureAlgorithm.Hash(); hash {', 'switch hash := crypto.SHA256; hash {'))),
+ dict(name='algorithm-map-in-another-package-miss-ignored', expect='flagged(blob/algorithm-lookup)', edits=alg_other_package(test='!ok && cryptoHash == 0')),
+]
